@@ -3,7 +3,7 @@ import Cppcheck.Model.Calc
 C01 — `infer()` of lib/infer.cpp with the integral model (`makeIntegralInferModel`): a pure function of an operator
 and two value lists.  Copied statement for statement: `getCompareValue` (ties: the LAST extremal value wins, because
 `std::min(value, *result, cmp)` returns `value` unless `*result` compares strictly smaller), `Interval::fromValues /
-operator- / equal / compare`, `setValueKind`, `inferNotEqual`, the three branches of `infer`.
+operator- / equal / compare`, `setValueKind`, `inferNotEqual`, `isClaim`, the three branches of `infer`.
 `std::vector<bigint>` with at most one element is an `Option Int`; reference vectors are lists of the values themselves.
 Arithmetic on bounds (`intvalue ± 1`, `lhs - rhs`) is unchecked `long long` arithmetic in the C++ (UB on overflow, wraps in
 the built objects): the model wraps, the theorems assume bounds below 2^62 in magnitude.
@@ -160,8 +160,13 @@ def valueKindOf (refs : List Value) : Kind :=
 /-- `inferNotEqual(values, x)` -/
 def inferNotEqual (vs : List Value) (x : Int) : Bool := vs.any (fun v => v.isImpossible && v.intvalue == x)
 
-/-- `infer(makeIntegralInferModel(), op, lhsValues, rhsValues)` -/
-def infer (op : Op) (lhsValues rhsValues : List Value) : List Value :=
+/-- `isClaim(refs)` (the lambda in the `-` branch): no reference is Possible or Inconclusive -/
+def isClaim (refs : List Value) : Bool := !refs.any (fun r => r.isPossible || r.isInconclusive)
+
+/-- `infer(makeIntegralInferModel(), op, lhsValues, rhsValues)`.  `guard = true` is the current code (commit 8842d71: an
+    Impossible bound of a subtraction is only derived from bounds that are claims); `guard = false` is the code before that
+    fix, kept for the counterexample theorem `infer_sound_counterexample` (finding F20). -/
+def inferG (guard : Bool) (op : Op) (lhsValues rhsValues : List Value) : List Value :=
   let lhsValues := lhsValues.filter (·.isInt)
   if lhsValues.isEmpty then [] else
   let rhsValues := rhsValues.filter (·.isInt)
@@ -174,10 +179,10 @@ def infer (op : Op) (lhsValues rhsValues : List Value) : List Value :=
       [{ kind := valueKindOf diff.getScalarRef, bound := .point, intvalue := diff.getScalar }]
     else
       (match diff.minvalue with
-       | some m => [{ kind := .impossible, bound := .upper, intvalue := wrap64 (m - 1) }]
+       | some m => if !guard || isClaim diff.minRef then [{ kind := .impossible, bound := .upper, intvalue := wrap64 (m - 1) }] else []
        | none => []) ++
       (match diff.maxvalue with
-       | some m => [{ kind := .impossible, bound := .lower, intvalue := wrap64 (m + 1) }]
+       | some m => if !guard || isClaim diff.maxRef then [{ kind := .impossible, bound := .lower, intvalue := wrap64 (m + 1) }] else []
        | none => [])
   else if (op = .ne ∨ op = .eq) ∧ lhs.isScalarOrEmpty ∧ rhs.isScalarOrEmpty then
     if lhs.isScalar && rhs.isScalar then
@@ -193,6 +198,12 @@ def infer (op : Op) (lhsValues rhsValues : List Value) : List Value :=
     match Interval.compareOp op lhs rhs with
     | (some b, refs) => [{ kind := valueKindOf refs, bound := .point, intvalue := b2i b }]
     | (none, _) => []
+
+/-- the current `infer` -/
+def infer (op : Op) (lhsValues rhsValues : List Value) : List Value := inferG true op lhsValues rhsValues
+
+/-- `infer` as it was before commit 8842d71 -/
+def inferPreFix (op : Op) (lhsValues rhsValues : List Value) : List Value := inferG false op lhsValues rhsValues
 
 /-- `getMinValue(model, values)` / `getMaxValue(model, values)` -/
 def getMinValue (vs : List Value) : Option Int := (fromValues (vs.filter (·.isInt))).minvalue
